@@ -35,7 +35,7 @@ Record env : Type := mkEnv {
   parse_timestamp : bytes -> presult (Z * Z * Z * Z * Z * Z * Z);  (* <Timestamp as FromStr> *)
   parse_interval : bytes -> presult unit;                          (* Interval::new: never Err *)
   stack_limit : Z;   (* nesting depth of read_expression the thread's stack can hold *)
-  spin_limit : Z;    (* iterations of an input-free loop the caller is prepared to wait for *)
+  spin_limit : Z;    (* unused since read_data rejects rows for a table without columns (kept for interface stability) *)
 }.
 
 Inductive kind : Type :=
